@@ -47,17 +47,35 @@ Proof.
     apply bytes_eqb_eq in E1. cbn in Hx. apply Hx in E2. subst. f_equal. apply IH. exact E3.
 Qed.
 
-Lemma args_eqb_eq : forall a b, args_eqb a b = true -> a = b.
+(* the by-name comparison of argument lists: every name is looked up to the same value on both sides *)
+Lemma assoc_some_in : forall (l : list argument) k v, assoc k l = Some v -> In (k, v) l.
 Proof.
-  induction a as [|[n v] a IH]; intros [|[n' v'] b] E; cbn in E; try discriminate; [reflexivity|].
-  apply andb_prop in E. destruct E as [E1 E3]. apply andb_prop in E1. destruct E1 as [E1 E2].
-  apply bytes_eqb_eq in E1. apply value_eqb_eq in E2. subst. f_equal. apply IH. exact E3.
+  induction l as [|[k' v'] l IH]; cbn; intros k v E; [discriminate|].
+  destruct (bytes_eqb k k') eqn:Ek.
+  - apply bytes_eqb_eq in Ek. inversion E; subst. left. reflexivity.
+  - right. apply IH. exact E.
+Qed.
+Lemma args_contained_assoc : forall a b, args_contained a b = true ->
+  forall k v, assoc k a = Some v -> assoc k b = Some v.
+Proof.
+  intros a b H k v E. unfold args_contained in H. rewrite forallb_forall in H.
+  specialize (H _ (assoc_some_in a k v E)). cbn [fst snd] in H.
+  destruct (assoc k b) as [w|]; [|discriminate]. apply value_eqb_eq in H. subst. reflexivity.
+Qed.
+Lemma args_eqb_assoc : forall a b, args_eqb a b = true -> forall k, assoc k a = assoc k b.
+Proof.
+  intros a b E k. unfold args_eqb in E. apply andb_prop in E. destruct E as [E E2]. apply andb_prop in E. destruct E as [_ E1].
+  destruct (assoc k a) as [v|] eqn:Ea.
+  - symmetry. eapply args_contained_assoc; eassumption.
+  - destruct (assoc k b) as [w|] eqn:Eb; [|reflexivity].
+    rewrite (args_contained_assoc b a E2 k w Eb) in Ea. discriminate.
 Qed.
 
-Lemma dir_eqb_eq : forall a b, dir_eqb a b = true -> a = b.
+Lemma dir_eqb_props : forall a b, dir_eqb a b = true ->
+  d_name a = d_name b /\ forall k, assoc k (d_args a) = assoc k (d_args b).
 Proof.
   intros [n1 a1] [n2 a2] E. unfold dir_eqb in E. cbn in E. apply andb_prop in E. destruct E as [E1 E2].
-  apply bytes_eqb_eq in E1. apply args_eqb_eq in E2. subst. reflexivity.
+  apply bytes_eqb_eq in E1. split; [exact E1|]. cbn. apply args_eqb_assoc. exact E2.
 Qed.
 
 Section Dedup.
@@ -72,7 +90,8 @@ Section Dedup.
   Proof.
     intros d. induction b as [|x r IH]; intros b' E; cbn [remove_first_dir] in E; [discriminate|].
     destruct (dir_eqb d x) eqn:Ex.
-    - inversion E; subst. apply dir_eqb_eq in Ex. subst. apply included_cons.
+    - inversion E; subst. rewrite (included_cons vars x b'). f_equal.
+      destruct (dir_eqb_props _ _ Ex) as [Hn Ha]. cbn [included]. unfold dir_if. rewrite Hn, (Ha s_if). reflexivity.
     - destruct (remove_first_dir d r) as [r'|]; [|discriminate]. inversion E; subst.
       rewrite (included_cons vars x r), (included_cons vars x r'), (IH r' eq_refl).
       destruct (included vars [x]), (included vars [d]); reflexivity.
